@@ -836,7 +836,9 @@ def collect_reports(plan, obs, us):
                         not head.startswith('HTTP/1.1 200'):
                     return 'response %d: %r' % (i, head[:60])
                 try:
-                    docs.append(json.loads(body))
+                    # the body travels as bytes: ASCII with \u escapes today,
+                    # UTF-8 is just as good
+                    docs.append(json.loads(body.encode('latin-1').decode('utf-8')))
                 except ValueError:
                     return 'response %d: body is not JSON' % i
         if len(docs) != len(us):
